@@ -362,6 +362,62 @@ func genG04(repo string, w *Out) error {
 	default:
 		return fmt.Errorf("TimeFrameEntry.Match: hour condition %q", conds[1])
 	}
+	// ParseTimeFrameEntry: the weekday names of the switch
+	ptf, err := tf.Func("ParseTimeFrameEntry")
+	if err != nil {
+		return err
+	}
+	weekdays := map[string]int{"time.Sunday": 0, "time.Monday": 1, "time.Tuesday": 2, "time.Wednesday": 3, "time.Thursday": 4, "time.Friday": 5, "time.Saturday": 6}
+	var wdNames []string
+	var wdVals []int
+	aptf := newAlpha(ptf, "repr", "newEntry", "split", "weekdayName", "hourStartHourEnd", "hourStart", "hourEnd", "err")
+	ast.Inspect(ptf.Body, func(x ast.Node) bool {
+		cc, ok := x.(*ast.CaseClause)
+		if !ok || len(cc.Body) != 1 {
+			return true
+		}
+		as, ok := cc.Body[0].(*ast.AssignStmt)
+		if !ok || len(as.Lhs) != 1 || !aptf.Eq("newEntry.Weekday", tf.Src(as.Lhs[0])) {
+			return true
+		}
+		v, ok := weekdays[tf.Src(as.Rhs[0])]
+		if !ok {
+			return true
+		}
+		for _, e := range cc.List {
+			if n, ok := StringLit(e); ok {
+				wdNames = append(wdNames, n)
+				wdVals = append(wdVals, v)
+			}
+		}
+		return true
+	})
+	if len(wdNames) == 0 {
+		return fmt.Errorf("ParseTimeFrameEntry: weekday switch not found")
+	}
+	{
+		var parts []string
+		for i, n := range wdNames {
+			parts = append(parts, fmt.Sprintf("(%s, %d)", CoqStr(n), wdVals[i]))
+		}
+		w.Linef("Definition weekday_names : list (str * N) := [%s]. (* %s *)", strings.Join(parts, "; "), comment(fmt.Sprintf("%q", wdNames)))
+	}
+	if err := aptf.Need("ParseTimeFrameEntry calls", tf.CallsIn(ptf.Body), `strings.Split(repr, "/")`, "strings.ToLower(strings.TrimSpace(split[0]))",
+		`strings.Split(split[1], "-")`, "strconv.Atoi(hourStartHourEnd[0])", "strconv.Atoi(hourStartHourEnd[1])", "newEntry.Validate()"); err != nil {
+		return err
+	}
+	if err := aptf.Need("ParseTimeFrameEntry conditions", g04IfConds(tf, ptf.Body), `len(split) != 2 || strings.TrimSpace(split[1]) == ""`,
+		"len(hourStartHourEnd) != 2"); err != nil {
+		return err
+	}
+	vfd, err := tf.Func("TimeFrameEntry.Validate")
+	if err != nil {
+		return err
+	}
+	if err := newAlpha(vfd, "t").Need("TimeFrameEntry.Validate conditions", g04IfConds(tf, vfd.Body), "t.Weekday < 0 || t.Weekday > 6",
+		"t.HourStart < 0 || t.HourStart > 24", "t.HourEnd < 0 || t.HourEnd > 24", "t.HourEnd < t.HourStart"); err != nil {
+		return err
+	}
 	w.DefBool("tf_start_inclusive", startIncl)
 	w.DefBool("tf_end_exclusive", endExcl)
 	tfa, err := Parse(repo, "middleware/time_frame_allow.go")
